@@ -589,12 +589,25 @@ class Evaluator(object):
                     if rl is not None and 1 <= rl < n:
                         n = rl
                 return [tm.tup([z.a[i] if z.op == "tuple" else tm.proj(z, i) for z in it.a[1]]) for i in range(n)]
+        rows = self._array_rows(it)
+        if rows is not None:
+            return rows
         if it.op == "call" and tm.callee_name(it.a[0]) == "builtins.range" and len(it.a[1]) == 1 and not it.a[2] and it.a[1][0].op == "const" and isinstance(it.a[1][0].a[0], float) and it.a[1][0].a[0].is_integer() and 1 <= it.a[1][0].a[0] <= 16:
             return [tm.const(i) for i in range(int(it.a[1][0].a[0]))]  # range(<literal n>)
         if it.op == "call" and tm.callee_name(it.a[0]) == "builtins.enumerate" and len(it.a[1]) == 1 and not it.a[2]:
             inner = self._unroll_elements(it.a[1][0])
             if inner is not None:
                 return [tm.tup([tm.const(i), x]) for i, x in enumerate(inner)]
+        return None
+
+    def _array_rows(self, t):
+        """rows of np.array([r1, ..., rk]) built from a display of k non-scalar rows: a computed array is its own row,
+        anything else (a list, a slice of a table) is the array made of it"""
+        if t.op == "call" and tm.callee_name(t.a[0]) in ("np.array", "np.asarray", "np.stack", "np.vstack") and len(t.a[1]) == 1 and not t.a[2] and t.a[1][0].op in ("list", "tuple") and 1 <= len(t.a[1][0].a) <= 16:
+            els = t.a[1][0].a
+            if any(e.op in ("const", "star") or e.op == "param" for e in els):
+                return None
+            return [e if e.op == "call" else tm.call(tm.ext("np.array"), (e,)) for e in els]
         return None
 
     def _syntactic_return_len(self, fn):
@@ -898,9 +911,12 @@ class Evaluator(object):
         if isinstance(tg, (ast.Tuple, ast.List)):
             n = len(tg.elts)
             self.site("unpack", node, n=n, value=v, starred=any(isinstance(e, ast.Starred) for e in tg.elts))
+            rows = self._array_rows(v) if hasattr(v, "op") and not any(isinstance(e, ast.Starred) for e in tg.elts) else None
             for k, e in enumerate(tg.elts):
                 if isinstance(e, ast.Starred):
                     self.assign(e.value, tm.unk("starred"), env, node)
+                elif rows is not None and len(rows) == n:
+                    self.assign(e, rows[k], env, node)  # a, b = np.array([A, B]): the rows
                 else:
                     self.assign(e, tm.proj(v, k), env, node)
             return
@@ -1180,6 +1196,9 @@ class Evaluator(object):
         function all of whose returns are tuple displays of one length; else None"""
         if t.op == "tuple":
             return list(t.a)
+        rows = self._array_rows(t)
+        if rows is not None:
+            return rows
         if t.op == "call" and t.a[0].op == "func" and self.P.has_func(t.a[0].a[0]):
             g = self.P.func(t.a[0].a[0])
             lens = set()
@@ -1385,8 +1404,11 @@ class Evaluator(object):
         for a_ in node.args:
             if isinstance(a_, ast.Starred):
                 sv = self.ev(a_.value, env)
+                parts_ = None
                 if sv.op in ("tuple", "list") and len(sv.a) <= 16:
                     args.extend(sv.a)  # f(*(a, b)) is f(a, b)
+                elif sv.op == "call" and sv.a[0].op in ("func", "localfunc") and self._tuple_parts(sv) is not None:
+                    args.extend(self._tuple_parts(sv))  # f(*g(x)) with g returning an n-tuple is f(g(x)[0], ..., g(x)[n-1])
                 else:
                     args.append(tm.mk("star", sv))
             else:
@@ -1599,7 +1621,7 @@ class Evaluator(object):
         if len(self.inline_frames) >= 3 or any(getattr(fr, "qual", None) == q for fr in self.inline_frames):
             return None
         g = self.P.func(q)
-        if g.vararg or g.kwarg or g.nested or any(a.op == "star" for a in args) or any(k == "**" for k, _ in kw):
+        if g.kwarg or g.nested or any(a.op == "star" for a in args) or any(k == "**" for k, _ in kw):
             return None
         for n in ast.walk(g.node):
             if isinstance(n, (ast.Yield, ast.YieldFrom, ast.Global, ast.Nonlocal, ast.Lambda)):
@@ -1610,8 +1632,12 @@ class Evaluator(object):
         env = {}
         for i, a in enumerate(args):
             if i >= len(g.params):
+                if g.vararg:
+                    break
                 return None
             env[g.params[i]] = a
+        if g.vararg:
+            env[g.vararg] = tm.tup(args[len(g.params):])  # *rest receives the surplus positional arguments as a tuple
         for k, v in kw:
             if k not in names or k in env:
                 return None
